@@ -26,6 +26,7 @@
  * buffer only to log it (`REC`), checking the layout contract the model assumes (`KERNEL bad` otherwise).
  */
 #include <stdio.h>
+#include <sys/time.h>
 #include <stdlib.h>
 #include <string.h>
 #include <errno.h>
@@ -464,13 +465,22 @@ static int rm_cb(const char *p, const struct stat *sb, int t, struct FTW *f)
 	return remove(p);
 }
 
+static void verif_watchdog(int cpu_s, int wall_s)
+{
+	/* a library call that spins is cut by the CPU-time limit (independent of how loaded the machine is); one that sleeps for
+	 * ever by the generous wall-clock limit */
+	struct itimerval it = { { 0, 0 }, { cpu_s, 0 } };
+	setitimer(ITIMER_PROF, &it, NULL);
+	alarm(wall_s);
+}
+
 int main(void)
 {
 	static char line[16384];
 	int i, w, n;
 
 	setvbuf(stdout, NULL, _IOLBF, 1 << 16);
-	alarm(60);	/* watchdog: a library call that does not return ends the run with SIGALRM */
+	verif_watchdog(120, 300);
 	iv_init();
 	printf("CONST %u %u %u\n", EVSZ, (unsigned)IN_IGNORED, (unsigned)IN_ONESHOT);
 	while (fgets(line, sizeof(line), stdin) != NULL) {
